@@ -316,6 +316,11 @@ func (s *Stream) ReceiveFrame(ctx context.Context) ([]byte, error) {
 		if s.gcm != nil && s.encrypted {
 			return nil, fmt.Errorf("zero-length frame on encrypted stream")
 		}
+		// Track header for AAD digest calculation (the sender hashed it too)
+		if s.recvDigest != nil && s.finalRecvDigest == nil {
+			s.recvDigest.Write(header)
+			s.recvDigestWritten = true
+		}
 		return []byte{}, nil
 	}
 
